@@ -1978,3 +1978,54 @@ pub fn held_lock_deadlocks() -> Vec<Program> {
         with_main("DL-lock-holding", o.clone(), vec![], vec![vec![lk(0), ul(0)]], vec![lk(0)], vec![ul(0)]),
     ]
 }
+
+/// Nested spawn: main spawns T1 and runs one op; T1 (optionally after an op) spawns T2 and
+/// (optionally) runs another op; T2 runs 1..=2 ops. A thread that does not exist yet when a
+/// racing access happens is enabled by a third thread, not by the one it races with.
+pub fn a_sc_nested(nat: usize, t2_len: usize) -> Vec<Program> {
+    let mut alpha: Vec<Op> = vec![];
+    for a in 0..nat {
+        alpha.push(fadd(a, 0, Sc));
+        alpha.push(swap(a, 0, Sc));
+    }
+    let opt: Vec<Option<Op>> = std::iter::once(None).chain(alpha.iter().cloned().map(Some)).collect();
+    let mut out = vec![];
+    let mut seen = HashSet::new();
+    for m in &alpha {
+        for pre in &opt {
+            for post in &opt {
+                for t2 in seqs(&alpha, t2_len) {
+                    let mut t1: Vec<Op> = vec![];
+                    if let Some(p) = pre {
+                        t1.push(p.clone());
+                    }
+                    t1.push(K::Spawn { t: 2 }.into());
+                    if let Some(p) = post {
+                        t1.push(p.clone());
+                    }
+                    let mut main: Vec<Op> = vec![K::Spawn { t: 1 }.into(), m.clone(), K::Join { t: 1 }.into(), K::Join { t: 2 }.into()];
+                    for a in 0..nat {
+                        main.push(ld(a, Sc));
+                    }
+                    let mut threads = vec![main, t1, t2];
+                    let used = threads.iter().flatten().filter_map(|o| atomic_of(&o.k)).max().map(|x| x + 1).unwrap_or(0);
+                    if used != nat {
+                        continue;
+                    }
+                    let mut v = 0u64;
+                    for op in threads.iter_mut().flatten() {
+                        if let K::Swap { v: x, .. } = &mut op.k {
+                            v += 1;
+                            *x = v;
+                        }
+                    }
+                    let p = Program { name: "A-sc-nested".into(), objs: atomics(nat), threads };
+                    if seen.insert(p.text()) {
+                        out.push(p);
+                    }
+                }
+            }
+        }
+    }
+    out
+}
